@@ -1,7 +1,75 @@
-import Dcg.Model.Imports
+import Dcg.Proofs.Imports
+/-
+C02 — emitted modules execute: every name is bound before it is needed.
+Only property theorems live here; helper lemmas are in Dcg/Proofs/Imports.lean (and
+Dcg/Proofs/Cover.lean for `imports_cover_hint`).
+-/
 namespace Dcg.Props.C02
-open Dcg.Model.Types Dcg.Model.Imports
+open Dcg.Model.Types Dcg.Model.Imports Dcg.Proofs.Imports
 
-theorem stub : count {} (none, []) = 0 := by decide
+/-! ### The reference-counted import set (`imports.py`) -/
+
+/-- FULL STRENGTH, any history of `append` / `remove` / `remove_referenced_imports` whatsoever that
+does not raise: a name whose counter is positive is in the set of its `from_` — `remove` never
+drops a binding that some other model still counts on. -/
+theorem counter_pos_present (ops : List Op) (s : State) (h : run {} ops = some s) (k : Key)
+    (hk : count s k > 0) : present s k = true :=
+  I1_run ops {} s I1_empty h k hk
+
+/-- The converse and the alias clause hold for the histories the generator produces: every removal
+takes back an earlier append, and a removal that takes back the last reference of an aliased name
+carries that alias (`okRun`, decidable). Then: present ⇔ counter > 0, counters are never
+negative, and an alias is defined only for a present name. Invariant by induction over the history. -/
+theorem counter_invariant (ops : List Op) (s : State) (ok : okRun {} ops = true)
+    (h : run {} ops = some s) (k : Key) :
+    (present s k = true ↔ count s k > 0) ∧ count s k ≥ 0 ∧
+      ((aliasOf s k).isSome = true → present s k = true) := by
+  have g := Good_run ops {} s Good_empty ok h
+  exact ⟨⟨g.i2 k, g.i1 k⟩, g.i4 k, g.i3 k⟩
+
+/-- non-vacuity: two models import `typing.Optional`, one of them is removed again -/
+example : okRun {} [.append [IMPORT_OPTIONAL, IMPORT_UNION], .append [IMPORT_OPTIONAL], .remove [IMPORT_OPTIONAL]] = true ∧
+    (run {} [.append [IMPORT_OPTIONAL, IMPORT_UNION], .append [IMPORT_OPTIONAL], .remove [IMPORT_OPTIONAL]]).isSome = true := by
+  decide
+
+/-- The full-strength converse is FALSE of the code: `remove` before `append` leaves a name in the
+set with counter 0 (the counter is a `defaultdict(int)` and goes negative silently). -/
+theorem counter_invariant_full_false :
+    ∃ ops s k, run {} ops = some s ∧ present s k = true ∧ count s k = 0 :=
+  ⟨[.remove [IMPORT_UNION], .append [IMPORT_UNION]], _, (some typingStr, IMPORT_UNION.name), rfl, by decide, by decide⟩
+
+/-- … and so is the alias clause: the pruning step removes by `Import(from_, import_)` without the
+alias, which leaves the alias defined for a name that is gone. -/
+theorem alias_stale_after_plain_remove :
+    ∃ ops s k, run {} ops = some s ∧ (aliasOf s k).isSome = true ∧ present s k = false :=
+  ⟨[.append [{ from_ := some ['m'], name := ['X'], alias := some ['Y'] }],
+    .remove [{ from_ := some ['m'], name := ['X'] }]], _, (some ['m'], ['X']), rfl, by decide, by decide⟩
+
+/-! ### Pruning (`parser/base.py`: imports whose name does not occur in the code are removed) -/
+
+/-- FULL STRENGTH: pruning never removes a name that occurs in the module text (as a substring, the
+test the code uses; hence never a name the text uses). -/
+theorem prune_sound (code : Str) (s s' : State) (h : prune code s = some s') (k : Key)
+    (hp : present s k = true) (hu : containsSub k.2 code = true) : present s' k = true := by
+  unfold prune at h
+  rw [present_removeAll_other _ k s s' h, hp]
+  intro i hi hk
+  simp only [List.mem_map] at hi
+  obtain ⟨k', hk', rfl⟩ := hi
+  have h1 := unused_not_in_code code s k' hk'
+  have h2 : (keyOf { from_ := k'.1, name := k'.2 : Imp }).2 = k'.2 := keyOf_snd _
+  rw [hk, h2, h1] at hu
+  cases hu
+
+/-- what pruning does remove is not in the text -/
+theorem prune_removes_only_unused (code : Str) (s s' : State) (h : prune code s = some s') (k : Key)
+    (hp : present s k = true) (hg : present s' k = false) : containsSub k.2 code = false := by
+  cases hc : containsSub k.2 code with
+  | false => rfl
+  | true => rw [prune_sound code s s' h k hp hc] at hg; cases hg
+
+example : (prune "x: Optional[int]".toList (([IMPORT_OPTIONAL, IMPORT_UNION]).foldl append1 {})).map
+    (fun s => (present s (keyOf IMPORT_OPTIONAL), present s (keyOf IMPORT_UNION))) = some (true, false) := by
+  decide
 
 end Dcg.Props.C02
